@@ -135,7 +135,7 @@ static void multi_run(int run, int kind, vt::rng& g)
     // every other run: the third distribution is two-dimensional with a single bin of size 2 in y (the bin area is not the x size)
     if ((run / 3) % 2 == 1) ds[2] = binning{3, 1, K / 2, K, -K, 2 * K};
     std::size_t const N = 24;
-    int edges_left = 3; // fills exactly on an edge make the specification branch: keep them few per run
+    int edges_left = 4; // fills on (or next to) an edge make the specification branch: keep them few per run
     std::vector<std::vector<fillspec>> plan(N);
     for (std::size_t c = 0; c != N; ++c)
         for (int d = 0; d != 3; ++d)
@@ -146,7 +146,7 @@ static void multi_run(int run, int kind, vt::rng& g)
             {
                 auto pick = [&](long long mn, long long sz, int bins) {
                     unsigned long long sel = g.below(8);
-                    if (sel == 0 && edges_left-- <= 0) sel = 7;
+                    if ((sel == 0 || sel == 5) && edges_left-- <= 0) sel = 7;
                     switch (sel)
                     {
                     case 0: return fin(mn + (long long) g.below((unsigned) bins + 1) * sz);  // on an edge (incl. min and max)
